@@ -7,6 +7,7 @@ import (
 	"os/exec"
 	"strings"
 	"sync"
+	"sync/atomic"
 	"time"
 )
 
@@ -39,6 +40,14 @@ func (c *Ctx) runBinEnv(bin, dir string, stdin string, extraEnv []string, timeou
 			continue
 		}
 		break
+	}
+	if r.TimedOut {
+		// A run that did not finish in time may be a hang of the code under test - or a machine that
+		// is busy with other work.  Only a run that also exceeds four times the period, started after
+		// a pause, counts as "does not terminate"; a load spike must never become a verdict.
+		time.Sleep(2 * time.Second)
+		atomic.AddInt64(&c.timeoutRetries, 1)
+		r = c.runBinOnce(bin, dir, stdin, extraEnv, 4*timeout, args...)
 	}
 	if r.Exit == -2 {
 		c.infra(fmt.Errorf("cannot execute %s: %s", bin, r.Stderr))
